@@ -21,37 +21,39 @@ import (
 const tokenADD = token.ADD
 
 type entryResult struct {
-	Entry        string                `json:"entry"`
-	Status       string                `json:"status"` // ok, violation, inconclusive
-	Paths        int                   `json:"paths"`
-	Completed    int                   `json:"completed"`
-	Dropped      int                   `json:"dropped"`
-	Forks        int                   `json:"forks"`
-	Queries      int                   `json:"queries"`
-	PreDecided   int64                 `json:"queries_decided_by_byte_domain_presolver"`
-	Sat          int                   `json:"sat"`
-	Unsat        int                   `json:"unsat"`
-	Unknown      int                   `json:"unknown"`
-	SolverErrors int                   `json:"solver_errors"`
-	SolverTimeS  float64               `json:"solver_time_s"`
-	WallS        float64               `json:"wall_s"`
-	Obligations  map[string]*oblStat   `json:"obligations"`
-	Reach        map[string]int        `json:"reach"`
-	ReachModels  map[string][]inputRec `json:"reach_models"`
-	Violations   []violation           `json:"violations"`
-	Unsupported  map[string]int        `json:"unsupported,omitempty"`
-	FuelOut      []string              `json:"fuel_exhausted,omitempty"`
-	Inconclusive []string              `json:"inconclusive,omitempty"`
-	Functions    map[string]string     `json:"functions_encoded"`
-	InitFailed   map[string]string     `json:"init_failed,omitempty"`
-	Stubs        []string              `json:"stubs"`
-	Summarized   []string              `json:"summarized"`
-	SumMade      int                   `json:"summaries_built"`
-	SumHits      int                   `json:"summary_cache_hits"`
-	SumFail      map[string]int        `json:"summary_fallbacks,omitempty"`
-	UFs          []string              `json:"uninterpreted_functions,omitempty"`
-	Samples      []string              `json:"samples,omitempty"`
-	Fuel         int                   `json:"fuel"`
+	Entry            string                `json:"entry"`
+	Status           string                `json:"status"` // ok, violation, inconclusive
+	Paths            int                   `json:"paths"`
+	Completed        int                   `json:"completed"`
+	Dropped          int                   `json:"dropped"`
+	Forks            int                   `json:"forks"`
+	Queries          int                   `json:"queries"`
+	PreDecided       int64                 `json:"queries_decided_by_byte_domain_presolver"`
+	Sat              int                   `json:"sat"`
+	Unsat            int                   `json:"unsat"`
+	Unknown          int                   `json:"unknown"`
+	SolverErrors     int                   `json:"solver_errors"`
+	SolverRetries    int                   `json:"paths_redone_after_solver_failure"`
+	SolverErrSamples []string              `json:"solver_error_samples,omitempty"`
+	SolverTimeS      float64               `json:"solver_time_s"`
+	WallS            float64               `json:"wall_s"`
+	Obligations      map[string]*oblStat   `json:"obligations"`
+	Reach            map[string]int        `json:"reach"`
+	ReachModels      map[string][]inputRec `json:"reach_models"`
+	Violations       []violation           `json:"violations"`
+	Unsupported      map[string]int        `json:"unsupported,omitempty"`
+	FuelOut          []string              `json:"fuel_exhausted,omitempty"`
+	Inconclusive     []string              `json:"inconclusive,omitempty"`
+	Functions        map[string]string     `json:"functions_encoded"`
+	InitFailed       map[string]string     `json:"init_failed,omitempty"`
+	Stubs            []string              `json:"stubs"`
+	Summarized       []string              `json:"summarized"`
+	SumMade          int                   `json:"summaries_built"`
+	SumHits          int                   `json:"summary_cache_hits"`
+	SumFail          map[string]int        `json:"summary_fallbacks,omitempty"`
+	UFs              []string              `json:"uninterpreted_functions,omitempty"`
+	Samples          []string              `json:"samples,omitempty"`
+	Fuel             int                   `json:"fuel"`
 }
 
 type output struct {
@@ -262,7 +264,7 @@ func main() {
 		er := entryResult{
 			Entry: en, Paths: ex.paths, Completed: ex.completed, Dropped: ex.dropped, Forks: ex.forks,
 			Queries: ex.stats.queries, PreDecided: ex.preDecided.Load(), Sat: ex.stats.sat, Unsat: ex.stats.unsat, Unknown: ex.stats.unknown,
-			SolverErrors: ex.stats.errors, SolverTimeS: ex.stats.time.Seconds(), WallS: time.Since(t1).Seconds(),
+			SolverErrors: ex.stats.errors, SolverRetries: ex.solverRetries, SolverErrSamples: ex.solverErrSamples, SolverTimeS: ex.stats.time.Seconds(), WallS: time.Since(t1).Seconds(),
 			Obligations: ex.obligations, Reach: ex.reach, ReachModels: ex.reachModel, Violations: ex.violations,
 			Unsupported: ex.unsupp, FuelOut: ex.fuelOut, Inconclusive: ex.inconcl, Functions: ex.funcs,
 			InitFailed: ex.initFailed, Stubs: stubs, Summarized: sums, SumMade: ex.sumMade, SumHits: ex.sumHits,
